@@ -181,9 +181,9 @@ Proof. vm_compute. repeat split; reflexivity. Qed.
 
 (* the check function of the correspondence harness accepts a true observation and refuses a wrong one *)
 Example ex_check :
-  cipher_check {| dc_dec := false; dc_klen := 8; dc_keys := [0x133457799BBCDFF1]; dc_blocks := [0x0123456789ABCDEF];
+  cipher_check {| dc_dec := false; dc_keys := [[0x133457799BBCDFF1]]; dc_blocks := [0x0123456789ABCDEF];
                   dc_stops := [(None, None, None); (Some 0, Some 0, Some 4)]%nat;
                   dc_obs := [[0x85E813540F0AB405]; [0x234AA9BB00000000]] |} = true
-  /\ cipher_check {| dc_dec := false; dc_klen := 8; dc_keys := [0x133457799BBCDFF1]; dc_blocks := [0x0123456789ABCDEF];
+  /\ cipher_check {| dc_dec := false; dc_keys := [[0x133457799BBCDFF1]]; dc_blocks := [0x0123456789ABCDEF];
                   dc_stops := [(None, None, None)]%nat; dc_obs := [[0x85E813540F0AB404]] |} = false.
 Proof. vm_compute. split; reflexivity. Qed.
